@@ -2,7 +2,9 @@
 
 pub mod canon;
 pub mod ctx;
+pub mod fmtprobe;
 pub mod gen;
+pub mod iterprobe;
 pub mod json;
 pub mod model;
 pub mod obs;
